@@ -1,5 +1,515 @@
+(* C52 -- proofs about the I2C initiator model (Model/I2cInit.v). *)
 From Coq Require Import NArith ZArith List Bool Lia ZifyBool ZifyN.
 Import ListNotations.
 From LunaLib Require Import Netlist Bits Machine.
 From LunaModel Require Import I2cInit.
 Open Scope N_scope.
+
+(* ------------------------------------------------------------------------------------------ *)
+(* packing lemmas for the lock-step obligations                                                *)
+Lemma ipk_mod : forall w a r, a < 2^w -> N.land (ipk w a r) (N.ones w) = a.
+Proof.
+  intros w a r H. unfold ipk. rewrite N.land_ones, N.shiftl_mul_pow2.
+  rewrite N.mod_add by (apply N.pow_nonzero; discriminate). apply N.mod_small. exact H.
+Qed.
+
+Lemma ipk_div : forall w a r, a < 2^w -> N.shiftr (ipk w a r) w = r.
+Proof.
+  intros w a r H. unfold ipk. rewrite N.shiftr_div_pow2, N.shiftl_mul_pow2.
+  rewrite N.div_add by (apply N.pow_nonzero; discriminate). rewrite N.div_small by exact H. reflexivity.
+Qed.
+
+Lemma ipkb_odd : forall b r, N.odd (ipk 1 (b2n b) r) = b.
+Proof.
+  intros b r. unfold ipk. rewrite N.shiftl_mul_pow2. change (2^1) with 2. rewrite (N.mul_comm r 2).
+  rewrite N.odd_add_mul_2. destruct b; reflexivity.
+Qed.
+
+Lemma ipkb_div : forall b r, N.div2 (ipk 1 (b2n b) r) = r.
+Proof.
+  intros b r. unfold ipk. rewrite N.div2_div, N.shiftl_mul_pow2. change (2^1) with 2. destruct b; cbn [b2n]; lia.
+Qed.
+
+Lemma fsm_code_lt : forall f, fsm_code f < 2^5.
+Proof. intros [|g k]; [reflexivity|]. destruct g, k; reflexivity. Qed.
+
+Lemma fsm_of_code : forall f, fsm_of (fsm_code f) = f.
+Proof. intros [|g k]; [reflexivity|]. destruct g, k; reflexivity. Qed.
+
+Lemma of_msb_lt : forall l, length l = 8%nat -> of_msb l < 2^8.
+Proof.
+  intros l H. unfold of_msb. pose proof (bits2N_bound (rev l)) as B. rewrite rev_length, H in B. exact B.
+Qed.
+
+Lemma msb8_of_msb : forall l, length l = 8%nat -> msb8 (of_msb l) = l.
+Proof.
+  intros l H. unfold msb8, of_msb.
+  replace 8%nat with (length (rev l)) by (rewrite rev_length; exact H).
+  rewrite N2bits_bits2N. apply rev_involutive.
+Qed.
+
+Lemma msb8_length : forall d, length (msb8 d) = 8%nat.
+Proof. intros d. unfold msb8. rewrite rev_length. apply N2bits_length. Qed.
+
+Lemma i2c_dec_enc : forall st, i2c_wf st -> i2c_dec (i2c_enc st) = st.
+Proof.
+  intros [f t bz bn w r d ra ao sc sd c0 c1 d0 d1] (Hb & Hw & Hr & Hd).
+  cbn [bitno w_shreg r_shreg data_o] in *. unfold i2c_enc, i2c_dec. cbv zeta.
+  cbn [fsm timer busy bitno w_shreg r_shreg data_o r_ack ack_o scl_o sda_o scl_s0 scl_i sda_s0 sda_i].
+  assert (Hb' : bn < 2^3) by exact Hb.
+  repeat first [ rewrite ipk_mod by first [apply fsm_code_lt | apply of_msb_lt; assumption | assumption]
+               | rewrite ipk_div by first [apply fsm_code_lt | apply of_msb_lt; assumption | assumption]
+               | rewrite ipkb_odd | rewrite ipkb_div ].
+  rewrite fsm_of_code, !msb8_of_msb by assumption. reflexivity.
+Qed.
+
+Lemma shl0_length : forall l, length l = 8%nat -> length (shl0 l) = 8%nat.
+Proof. intros [|x l] H; [discriminate|]. unfold shl0. cbn [tl]. rewrite app_length. cbn in *. lia. Qed.
+
+Lemma shin_length : forall l b, length l = 8%nat -> length (shin l b) = 8%nat.
+Proof. intros [|x l] b H; [discriminate|]. unfold shin. cbn [tl]. rewrite app_length. cbn in *. lia. Qed.
+
+Lemma i2c_wf_next : forall q s st i, i2c_wf st -> i2c_wf (i2c_next q s st i).
+Proof.
+  intros q s st i (Hb & Hw & Hr & Hd). unfold i2c_wf, i2c_next.
+  assert (M : (bitno st + 1) mod 8 < 8) by (apply N.mod_lt; discriminate).
+  destruct (fsm st) as [|g k]; [|destruct k, g];
+    repeat match goal with |- context [if ?b then _ else _] => destruct b end;
+    cbn [bitno w_shreg r_shreg data_o]; repeat split;
+    first [assumption | apply msb8_length | apply shl0_length; assumption | apply shin_length; assumption].
+Qed.
+
+Lemma i2c_wf_step : forall q s st i, i2c_wf st -> i2c_wf (fst (i2c_step q s st i)).
+Proof. intros. unfold i2c_step. cbn [fst]. apply i2c_wf_next. assumption. Qed.
+
+Lemma i2c_wf_init : i2c_wf i2c_init.
+Proof. unfold i2c_wf, i2c_init. cbn. repeat split; reflexivity. Qed.
+
+(* ------------------------------------------------------------------------------------------ *)
+(* Safety invariants: where SCL is while SDA moves; busy                                       *)
+Definition sinv (st : i2c_state) : Prop :=
+  (busy st = false -> fsm st = Idle) /\
+  match fsm st with
+  | Idle => scl_o st = true
+  | Ph _ Sda1 => scl_o st = false
+  | Ph _ Sda2 => scl_o st = true
+  | _ => True
+  end.
+
+Lemma sinv_init : sinv i2c_init.
+Proof. split; [discriminate | reflexivity]. Qed.
+
+Section Safety.
+  Variable q : N.
+  Variable stretch : bool.
+
+  Lemma sinv_next : forall st i, sinv st -> sinv (i2c_next q stretch st i).
+  Proof.
+    intros st i (Hb & Hs). unfold sinv, i2c_next.
+    destruct (fsm st) as [|g k] eqn:F.
+    - (* Idle *)
+      repeat match goal with |- context [if ?b then _ else _] => destruct b end;
+        cbn [fsm busy scl_o]; split; try discriminate; try reflexivity; try exact I; try assumption.
+    - assert (Bz : busy st = true) by (destruct (busy st); [reflexivity | specialize (Hb eq_refl); discriminate]).
+      destruct k.
+      + destruct (stb st); cbn [fsm busy scl_o]; (split; [rewrite Bz; discriminate | try reflexivity; try exact I]).
+      + destruct (stb st); cbn [fsm busy scl_o]; (split; [rewrite Bz; discriminate | try exact I; try assumption]).
+      + destruct (stb st); [cbn [fsm busy scl_o]; split; [rewrite Bz; discriminate | exact I]|].
+        destruct (sclh_done stretch st) eqn:D; [|cbn [fsm busy scl_o]; split; [rewrite Bz; discriminate | exact I]].
+        assert (So : scl_o st = true).
+        { unfold sclh_done in D. destruct (scl_o st); [reflexivity|].
+          rewrite andb_false_r in D. discriminate. }
+        destruct g; cbn [fsm busy scl_o]; (split; [rewrite Bz; discriminate | exact So]).
+      + destruct (stb st); cbn [fsm busy scl_o]; [|split; [rewrite Bz; discriminate | assumption]].
+        split; [rewrite Bz; discriminate|].
+        unfold after_sda2. destruct g; try assumption; destruct (bitno st =? 7); exact I.
+  Qed.
+
+  Lemma sinv_reachable : forall tr, sinv (run_state (i2c_step q stretch) i2c_init tr).
+  Proof.
+    intros tr. assert (G : forall st, sinv st -> sinv (run_state (i2c_step q stretch) st tr)).
+    { induction tr as [|i t IH]; intros st H; [exact H|]. cbn [run_state i2c_step fst]. apply IH, sinv_next, H. }
+    apply G, sinv_init.
+  Qed.
+
+  (* T1: SDA discipline.  In any step in which the initiator's SDA output changes, either the initiator is
+     holding SCL low before and after the step, or it has SCL released before and after and the step is the
+     SDA edge of a START (falling) or STOP (rising) sequence. *)
+  Lemma sda_discipline_step : forall st i, sinv st ->
+    let st' := i2c_next q stretch st i in
+    sda_o st' <> sda_o st ->
+    (scl_o st = false /\ scl_o st' = false /\ exists g, fsm st = Ph g Sda1) \/
+    (scl_o st = true /\ scl_o st' = true /\
+       ((fsm st = Ph GStart Sda2 /\ sda_o st = true /\ sda_o st' = false) \/
+        (fsm st = Ph GStop Sda2 /\ sda_o st = false /\ sda_o st' = true))).
+  Proof.
+    intros st i (Hb & Hs) st' Hd. subst st'. unfold i2c_next in *.
+    destruct (fsm st) as [|g k] eqn:F.
+    - exfalso. apply Hd.
+      repeat match goal with |- context [if ?b then _ else _] => destruct b end; reflexivity.
+    - destruct k.
+      + exfalso. apply Hd. destruct (stb st); reflexivity.
+      + left. destruct (stb st); cbn [sda_o scl_o] in *; [|exfalso; apply Hd; reflexivity].
+        repeat split; try assumption. exists g; reflexivity.
+      + exfalso. apply Hd. destruct (stb st); [reflexivity|].
+        destruct (sclh_done stretch st); [destruct g|]; reflexivity.
+      + right. destruct (stb st); cbn [sda_o scl_o] in *; [|exfalso; apply Hd; reflexivity].
+        repeat split; try assumption.
+        destruct g; try (exfalso; apply Hd; reflexivity).
+        * left. destruct (sda_o st); [auto | exfalso; apply Hd; reflexivity].
+        * right. destruct (sda_o st); [exfalso; apply Hd; reflexivity | auto].
+  Qed.
+
+  Theorem sda_discipline : forall tr i,
+    let st := run_state (i2c_step q stretch) i2c_init tr in
+    let st' := i2c_next q stretch st (i2c_decode i) in
+    sda_o st' <> sda_o st ->
+    (scl_o st = false /\ scl_o st' = false /\ exists g, fsm st = Ph g Sda1) \/
+    (scl_o st = true /\ scl_o st' = true /\
+       ((fsm st = Ph GStart Sda2 /\ sda_o st = true /\ sda_o st' = false) \/
+        (fsm st = Ph GStop Sda2 /\ sda_o st = false /\ sda_o st' = true))).
+  Proof. intros tr i. apply sda_discipline_step. apply sinv_reachable. Qed.
+
+  (* the START / STOP groups are only entered by an accepted start / stop request; every group is entered
+     from IDLE by its request (priority start > stop > write > read) or, for the ACK groups, from the
+     eighth data bit *)
+  Definition requested (g : i2c_group) (i : i2c_in) : Prop :=
+    match g with
+    | GStart => in_start i = true
+    | GStop => in_start i = false /\ in_stop i = true
+    | GWData => in_start i = false /\ in_stop i = false /\ in_write i = true
+    | GRData => in_start i = false /\ in_stop i = false /\ in_write i = false /\ in_read i = true
+    | GWAck | GRAck => False
+    end.
+
+  Theorem group_entry : forall st i g k, fsm (i2c_next q stretch st i) = Ph g k ->
+    (exists k0, fsm st = Ph g k0) \/ (fsm st = Idle /\ requested g i) \/
+    (g = GWAck /\ fsm st = Ph GWData Sda2 /\ bitno st = 7) \/ (g = GRAck /\ fsm st = Ph GRData Sda2 /\ bitno st = 7).
+  Proof.
+    intros st i g k H. unfold i2c_next in H.
+    destruct (fsm st) as [|g0 k0] eqn:F.
+    - right. left. split; [reflexivity|].
+      destruct (in_start i) eqn:E1.
+      { cbn [fsm] in H. destruct (scl_i st && sda_i st); [|destruct (negb (scl_i st))]; injection H as <- _; exact E1. }
+      destruct (in_stop i) eqn:E2.
+      { cbn [fsm] in H. destruct (scl_i st && negb (sda_o st)); [|destruct (negb (scl_i st))]; injection H as <- _; split; assumption. }
+      destruct (in_write i) eqn:E3.
+      { cbn [fsm] in H. injection H as <- _. repeat split; assumption. }
+      destruct (in_read i) eqn:E4.
+      { cbn [fsm] in H. injection H as <- _. repeat split; assumption. }
+      discriminate.
+    - destruct k0.
+      + left. destruct (stb st); cbn [fsm] in H; injection H as <- _; eauto.
+      + left. destruct (stb st); cbn [fsm] in H; injection H as <- _; eauto.
+      + left. destruct (stb st); [cbn [fsm] in H; injection H as <- _; eauto|].
+        destruct (sclh_done stretch st); [destruct g0|]; cbn [fsm] in H; injection H as <- _; eauto.
+      + destruct (stb st); [|left; cbn [fsm] in H; injection H as <- _; eauto].
+        cbn [fsm] in H. unfold after_sda2 in H.
+        destruct g0; try discriminate.
+        * destruct (bitno st =? 7) eqn:E; injection H as <- _.
+          -- right. right. left. apply N.eqb_eq in E. auto.
+          -- left. eauto.
+        * destruct (bitno st =? 7) eqn:E; injection H as <- _.
+          -- right. right. right. apply N.eqb_eq in E. auto.
+          -- left. eauto.
+  Qed.
+
+  (* T3: busy is low only in IDLE, and in IDLE every request is accepted in the same cycle *)
+  Theorem busy_low_only_idle : forall tr,
+    let st := run_state (i2c_step q stretch) i2c_init tr in busy st = false -> fsm st = Idle.
+  Proof. intros tr st. exact (proj1 (sinv_reachable tr)). Qed.
+
+  Theorem idle_accepts : forall st i, fsm st = Idle ->
+    (in_start i || in_stop i || in_write i || in_read i) = true ->
+    exists g k, fsm (i2c_next q stretch st i) = Ph g k /\ requested g i /\ busy (i2c_next q stretch st i) = true.
+  Proof.
+    intros st i F R. unfold i2c_next. rewrite F.
+    destruct (in_start i) eqn:E1.
+    { exists GStart. destruct (scl_i st && sda_i st); [|destruct (negb (scl_i st))]; eexists; cbn [fsm busy]; repeat split; auto. }
+    destruct (in_stop i) eqn:E2.
+    { exists GStop. destruct (scl_i st && negb (sda_o st)); [|destruct (negb (scl_i st))]; eexists; cbn [fsm busy requested]; repeat split; auto. }
+    destruct (in_write i) eqn:E3.
+    { exists GWData, SclL. cbn [fsm busy requested]. repeat split; auto. }
+    destruct (in_read i) eqn:E4.
+    { exists GRData, SclL. cbn [fsm busy requested]. repeat split; auto. }
+    discriminate.
+  Qed.
+
+  (* T4: clock stretching.  With clk_stretch, while the initiator has released SCL but sees it low, nothing
+     moves outside a strobe cycle: FSM state, timer, outputs and data registers are frozen. *)
+  Definition ctrl_eq (a b : i2c_state) : Prop :=
+    fsm a = fsm b /\ timer a = timer b /\ busy a = busy b /\ bitno a = bitno b /\ w_shreg a = w_shreg b /\
+    r_shreg a = r_shreg b /\ data_o a = data_o b /\ r_ack a = r_ack b /\ ack_o a = ack_o b /\
+    scl_o a = scl_o b /\ sda_o a = sda_o b.
+
+  Lemma stretch_step : forall st i, stretch = true -> fsm st <> Idle -> busy st = true -> timer st <> 0 ->
+    scl_o st = true -> scl_i st = false -> ctrl_eq (i2c_next q stretch st i) st.
+  Proof.
+    intros st i S F B T So Si. unfold ctrl_eq, i2c_next, timer_next, sclh_done, stb.
+    apply N.eqb_neq in T. rewrite T, B, So, Si, S. cbn [negb orb andb eqb].
+    destruct (fsm st) as [|g k]; [contradiction|]. destruct k; cbn; repeat split; reflexivity.
+  Qed.
+
+  Theorem stretch_holds : forall tr st, stretch = true -> fsm st <> Idle -> busy st = true -> timer st <> 0 ->
+    scl_o st = true -> scl_s0 st = false -> scl_i st = false ->
+    Forall (fun i => in_scl (i2c_decode i) = false) tr ->
+    ctrl_eq (run_state (i2c_step q stretch) st tr) st.
+  Proof.
+    induction tr as [|i t IH]; intros st S F B T So S0 Si H.
+    - cbn. unfold ctrl_eq. repeat split; reflexivity.
+    - inversion H as [|a b Hi Ht]; subst a b. cbn [run_state i2c_step fst].
+      pose proof (stretch_step st (i2c_decode i) S F B T So Si) as E.
+      destruct E as (E1 & E2 & E3 & E4 & E5 & E6 & E7 & E8 & E9 & E10 & E11).
+      assert (N0 : scl_s0 (i2c_next q stretch st (i2c_decode i)) = false).
+      { unfold i2c_next. destruct (fsm st) as [|g k]; [contradiction|].
+        destruct k; repeat match goal with |- context [if ?b then _ else _] => destruct b end;
+          try destruct g; cbn [scl_s0]; exact Hi. }
+      assert (N1 : scl_i (i2c_next q stretch st (i2c_decode i)) = false).
+      { unfold i2c_next. destruct (fsm st) as [|g k]; [contradiction|].
+        destruct k; repeat match goal with |- context [if ?b then _ else _] => destruct b end;
+          try destruct g; cbn [scl_i]; exact S0. }
+      specialize (IH (i2c_next q stretch st (i2c_decode i)) S).
+      rewrite E1, E2, E3, E10 in IH. specialize (IH F B T So N0 N1 Ht).
+      unfold ctrl_eq in *. destruct IH as (I1 & I2 & I3 & I4 & I5 & I6 & I7 & I8 & I9 & I10 & I11).
+      repeat split; congruence.
+  Qed.
+End Safety.
+
+(* ------------------------------------------------------------------------------------------ *)
+(* What a write and a read put on the bus: the ghost invariant                                 *)
+Lemma hd_skipn : forall (d : list bool) j p, (j < length d)%nat -> hd false (skipn j d ++ p) = nth j d false.
+Proof. induction d as [|x d IH]; intros j p H; cbn in H; [lia|]. destruct j as [|j]; cbn; [reflexivity | apply IH; lia]. Qed.
+
+Lemma tl_skipn : forall (d : list bool) j p, (j < length d)%nat -> tl (skipn j d ++ p) = skipn (S j) d ++ p.
+Proof. induction d as [|x d IH]; intros j p H; cbn in H; [lia|]. destruct j as [|j]; cbn; [reflexivity | apply IH; lia]. Qed.
+
+Lemma firstn_snoc : forall (d : list bool) j, (j < length d)%nat -> firstn (S j) d = firstn j d ++ [nth j d false].
+Proof. induction d as [|x d IH]; intros j H; cbn in H; [lia|]. destruct j as [|j]; [reflexivity|]. cbn [firstn nth app]. f_equal. apply IH. lia. Qed.
+
+Lemma repeat_snoc : forall (x : bool) n, repeat x n ++ [x] = repeat x (S n).
+Proof. intros. rewrite <- repeat_cons. reflexivity. Qed.
+
+Definition ginv (st : i2c_state) (g : ghost) : Prop :=
+  let d := g_data g in let a := g_ack g in
+  let j := N.to_nat (bitno st) in
+  match fsm st with
+  | Idle => bitno st = 0 /\
+      match g_op g with
+      | OpWrite => length d = 8%nat /\ g_rises g = d ++ [true] /\ exists s, g_samples g = [s] /\ ack_o st = negb s
+      | OpRead => length (g_samples g) = 8%nat /\ data_o st = g_samples g /\ g_rises g = repeat true 8 ++ [negb a]
+      | _ => True
+      end
+  | Ph GStart _ => g_op g = OpStart /\ bitno st = 0
+  | Ph GStop _ => g_op g = OpStop /\ bitno st = 0
+  | Ph GWData k => g_op g = OpWrite /\ length d = 8%nat /\ g_samples g = [] /\
+      match k with
+      | SclL | Sda1 => g_rises g = firstn j d /\ w_shreg st = skipn j d ++ repeat false j
+      | SclH => sda_o st = nth j d false /\ w_shreg st = skipn j d ++ repeat false j /\
+                g_rises g = firstn j d ++ (if scl_o st then [sda_o st] else [])
+      | Sda2 => g_rises g = firstn (S j) d /\ w_shreg st = skipn (S j) d ++ repeat false (S j)
+      end
+  | Ph GWAck k => g_op g = OpWrite /\ length d = 8%nat /\ bitno st = 0 /\
+      match k with
+      | SclL | Sda1 => g_rises g = d /\ g_samples g = []
+      | SclH => sda_o st = true /\ g_samples g = [] /\ g_rises g = d ++ (if scl_o st then [true] else [])
+      | Sda2 => g_rises g = d ++ [true] /\ exists s, g_samples g = [s] /\ ack_o st = negb s
+      end
+  | Ph GRData k => g_op g = OpRead /\ r_ack st = a /\
+      length (g_samples g) = (match k with Sda2 => S j | _ => j end) /\
+      (exists pre, r_shreg st = pre ++ g_samples g) /\
+      match k with
+      | SclL | Sda1 => g_rises g = repeat true j
+      | SclH => sda_o st = true /\ g_rises g = repeat true j ++ (if scl_o st then [true] else [])
+      | Sda2 => g_rises g = repeat true (S j)
+      end
+  | Ph GRAck k => g_op g = OpRead /\ r_ack st = a /\ bitno st = 0 /\ length (g_samples g) = 8%nat /\
+      r_shreg st = g_samples g /\
+      match k with
+      | SclL | Sda1 => g_rises g = repeat true 8
+      | SclH => sda_o st = negb a /\ g_rises g = repeat true 8 ++ (if scl_o st then [negb a] else [])
+      | Sda2 => g_rises g = repeat true 8 ++ [negb a] /\ data_o st = g_samples g
+      end
+  end.
+
+Lemma ginv_init : ginv i2c_init ghost0.
+Proof. unfold ginv. cbn. auto. Qed.
+
+Section GhostProofs.
+  Variable q : N.
+  Variable stretch : bool.
+
+  Lemma bitno_succ : forall b, b < 8 -> (b =? 7) = false -> (b + 1) mod 8 = b + 1 /\ N.to_nat (b + 1) = S (N.to_nat b) /\ (S (N.to_nat b) < 8)%nat.
+  Proof. intros b H E. apply N.eqb_neq in E. split; [apply N.mod_small; lia | split; lia]. Qed.
+
+  Lemma bitno_wrap : forall b, (b =? 7) = true -> (b + 1) mod 8 = 0 /\ N.to_nat b = 7%nat.
+  Proof. intros b E. apply N.eqb_eq in E. subst. split; reflexivity. Qed.
+
+  Ltac prj := cbn [fsm timer busy bitno w_shreg r_shreg data_o r_ack ack_o scl_o sda_o scl_s0 scl_i sda_s0 sda_i
+                   g_op g_data g_ack g_rises g_samples] in *.
+
+  Lemma ginv_next : forall st i g, i2c_wf st -> sinv st -> ginv st g ->
+    ginv (i2c_next q stretch st i) (ghost_next q stretch st i g).
+  Proof.
+    intros st i g (Wb & Ww & Wr & Wd) (Sb & Ss) G.
+    destruct g as [op d a rises samples].
+    unfold ginv, ghost_next, accepted, samples_now, i2c_next in *. prj.
+    destruct (fsm st) as [|grp k] eqn:F.
+    - (* Idle *)
+      destruct G as (B0 & G).
+      destruct (in_start i); [destruct (scl_i st && sda_i st); [|destruct (negb (scl_i st))]; prj; (split; [reflexivity | exact B0])|].
+      destruct (in_stop i); [destruct (scl_i st && negb (sda_o st)); [|destruct (negb (scl_i st))]; prj; (split; [reflexivity | exact B0])|].
+      destruct (in_write i).
+      { prj. rewrite B0. cbn [N.to_nat firstn skipn repeat]. rewrite app_nil_r.
+        repeat split; try reflexivity; apply msb8_length. }
+      destruct (in_read i).
+      { prj. rewrite B0. cbn [N.to_nat repeat].
+        repeat split; try reflexivity. exists (r_shreg st). rewrite app_nil_r. reflexivity. }
+      prj. rewrite andb_negb_l. rewrite !app_nil_r. split; [exact B0 | exact G].
+    - assert (Bz : busy st = true) by (destruct (busy st); [reflexivity | specialize (Sb eq_refl); discriminate]).
+      destruct k.
+      + (* SclL *) destruct (stb st) eqn:T; destruct grp; prj; rewrite ?andb_false_r, ?andb_negb_l, ?app_nil_r; try exact G.
+      + (* Sda1: SCL is low; on the strobe SDA takes this bit's value *)
+        rewrite Ss in *.
+        destruct (stb st) eqn:T; destruct grp; prj; rewrite ?Ss; cbn [negb andb]; rewrite ?app_nil_r; try exact G.
+        * (* write data *)
+          destruct G as (G1 & G2 & G3 & G4 & G5). repeat split; try assumption.
+          unfold sda1_value. rewrite G5. apply hd_skipn. lia.
+        * destruct G as (G1 & G2 & G3 & G4 & G5). repeat split; assumption.
+        * destruct G as (G1 & G2 & G3 & G4 & G5). repeat split; assumption.
+        * destruct G as (G1 & G2 & G3 & G4 & G5 & G6). repeat split; try assumption.
+          unfold sda1_value. rewrite G2. reflexivity.
+      + (* SclH *)
+        destruct (stb st) eqn:T.
+        * (* strobe: SCL released; a rise is recorded iff it was low *)
+          assert (D : sclh_done stretch st = false) by (unfold sclh_done; rewrite T; reflexivity).
+          rewrite D. destruct grp; prj; rewrite ?andb_true_r, ?app_nil_r; try exact G.
+          -- destruct G as (G1 & G2 & G3 & G4 & G5 & G6). repeat split; try assumption.
+             rewrite G6. destruct (scl_o st); cbn [negb]; rewrite ?app_nil_r; reflexivity.
+          -- destruct G as (G1 & G2 & G3 & G4 & G5 & G6). repeat split; try assumption.
+             rewrite G6, G4. destruct (scl_o st); cbn [negb]; rewrite ?app_nil_r; reflexivity.
+          -- destruct G as (G1 & G2 & G3 & G4 & G5 & G6). repeat split; try assumption.
+             rewrite G6, G5. destruct (scl_o st); cbn [negb]; rewrite ?app_nil_r; reflexivity.
+          -- destruct G as (G1 & G2 & G3 & G4 & G5 & G6 & G7). repeat split; try assumption.
+             rewrite G7, G6. destruct (scl_o st); cbn [negb]; rewrite ?app_nil_r; reflexivity.
+        * destruct (sclh_done stretch st) eqn:D.
+          -- (* SCL seen high: sample / shift, go to Sda2 *)
+             assert (So : scl_o st = true).
+             { unfold sclh_done in D. destruct (scl_o st); [reflexivity|]. rewrite andb_false_r in D. discriminate. }
+             destruct grp; prj; rewrite ?So in *; cbn [negb andb] in *; rewrite ?app_nil_r; try exact G.
+             ++ (* write data: shift *)
+                destruct G as (G1 & G2 & G3 & G4 & G5 & G6). repeat split; try assumption.
+                ** rewrite G6, G4. symmetry. apply firstn_snoc. lia.
+                ** unfold shl0. rewrite G5. rewrite tl_skipn by lia. rewrite <- app_assoc.
+                   rewrite (repeat_snoc false). reflexivity.
+             ++ (* write ack: sample *)
+                destruct G as (G1 & G2 & G3 & G4 & G5 & G6). repeat split; try assumption.
+                exists (sda_i st). rewrite G5. split; reflexivity.
+             ++ (* read data: sample and shift in *)
+                destruct G as (G1 & G2 & G3 & (pre & G4) & G5 & G6). repeat split; try assumption.
+                ** rewrite app_length, G3. cbn. lia.
+                ** destruct pre as [|p pre].
+                   { exfalso. cbn in G4. rewrite G4 in Wr. lia. }
+                   exists pre. unfold shin. rewrite G4. cbn [tl app]. rewrite app_assoc. reflexivity.
+                ** rewrite G6. apply (repeat_snoc true).
+             ++ (* read ack: data_o <= r_shreg *)
+                destruct G as (G1 & G2 & G3 & G4 & G5 & G6 & G7). repeat split; assumption.
+          -- destruct grp; prj; rewrite ?andb_negb_l, ?app_nil_r; exact G.
+      + (* Sda2: SCL is released *)
+        rewrite Ss in *. cbn [negb andb].
+        destruct (stb st) eqn:T; [|destruct grp; prj; rewrite ?app_nil_r; exact G].
+        unfold after_sda2.
+        destruct grp; prj; rewrite ?app_nil_r; try exact G.
+        * destruct G as (G1 & G2). subst op. split; [exact G2 | exact I].
+        * destruct G as (G1 & G2). subst op. split; [exact G2 | exact I].
+        * (* write data: next bit or go to the ACK group *)
+          destruct G as (G1 & G2 & G3 & G4 & G5).
+          destruct (bitno st =? 7) eqn:E.
+          -- destruct (bitno_wrap _ E) as (E1 & E2). rewrite E1. rewrite E2 in *.
+             repeat split; try assumption. rewrite G4. apply firstn_all2. lia.
+          -- destruct (bitno_succ _ Wb E) as (E1 & E2 & E3). rewrite E1, E2.
+             repeat split; assumption.
+        * destruct G as (G1 & G2 & G3 & G4 & G5). subst op. split; [exact G3|]. split; [exact G2|]. split; assumption.
+        * (* read data *)
+          destruct G as (G1 & G2 & G3 & (pre & G4) & G5).
+          destruct (bitno st =? 7) eqn:E.
+          -- destruct (bitno_wrap _ E) as (E1 & E2). rewrite E1. rewrite E2 in *.
+             assert (P0 : pre = []).
+             { destruct pre as [|p pre]; [reflexivity|]. exfalso. rewrite G4 in Wr. rewrite app_length in Wr. cbn in Wr. lia. }
+             subst pre. cbn [app] in G4. repeat split; assumption.
+          -- destruct (bitno_succ _ Wb E) as (E1 & E2 & E3). rewrite E1, E2.
+             repeat split; try assumption. exists pre. exact G4.
+        * destruct G as (G1 & G2 & G3 & G4 & G5 & G6 & G7). subst op. split; [exact G3|]. repeat split; assumption.
+  Qed.
+
+  Lemma inv_reachable_from : forall tr st g, i2c_wf st -> sinv st -> ginv st g ->
+    i2c_wf (fst (grun q stretch st g tr)) /\ sinv (fst (grun q stretch st g tr)) /\
+    ginv (fst (grun q stretch st g tr)) (snd (grun q stretch st g tr)).
+  Proof.
+    induction tr as [|i t IH]; intros st g W S G; [cbn; auto|].
+    cbn [grun]. apply IH.
+    - apply i2c_wf_next, W.
+    - apply sinv_next, S.
+    - apply ginv_next; assumption.
+  Qed.
+
+  Lemma grun_state : forall tr st g, fst (grun q stretch st g tr) = run_state (i2c_step q stretch) st tr.
+  Proof. induction tr as [|i t IH]; intros st g; [reflexivity|]. cbn [grun run_state i2c_step fst]. apply IH. Qed.
+
+  (* Write.  Whenever the initiator is idle and the last accepted request was a write of data_i = D:
+     it generated exactly nine SCL pulses; at the rising edges of the first eight its SDA output carried the
+     bits of D, most significant first; at the ninth SDA was released; exactly one sample of SDA was taken
+     (during that ninth pulse, see samples_scl_high) and ack_o is its complement. *)
+  Theorem write_correct : forall tr,
+    let st := fst (grun q stretch i2c_init ghost0 tr) in
+    let g := snd (grun q stretch i2c_init ghost0 tr) in
+    fsm st = Idle -> g_op g = OpWrite ->
+    length (g_data g) = 8%nat /\ g_rises g = g_data g ++ [true] /\
+    exists s, g_samples g = [s] /\ ack_o st = negb s.
+  Proof.
+    intros tr st g F O.
+    destruct (inv_reachable_from tr i2c_init ghost0 i2c_wf_init sinv_init ginv_init) as (_ & _ & G).
+    fold st g in G. unfold ginv in G. rewrite F, O in G. exact (proj2 G).
+  Qed.
+
+  (* Read.  Whenever the initiator is idle and the last accepted request was a read with ack_i = A:
+     nine SCL pulses; SDA released at the first eight rising edges and driven to (not A) at the ninth
+     (A = 1 acknowledges); exactly eight samples of SDA were taken and data_o holds them, first sample in
+     the most significant bit. *)
+  Theorem read_correct : forall tr,
+    let st := fst (grun q stretch i2c_init ghost0 tr) in
+    let g := snd (grun q stretch i2c_init ghost0 tr) in
+    fsm st = Idle -> g_op g = OpRead ->
+    length (g_samples g) = 8%nat /\ data_o st = g_samples g /\
+    g_rises g = repeat true 8 ++ [negb (g_ack g)].
+  Proof.
+    intros tr st g F O.
+    destruct (inv_reachable_from tr i2c_init ghost0 i2c_wf_init sinv_init ginv_init) as (_ & _ & G).
+    fold st g in G. unfold ginv in G. rewrite F, O in G. exact (proj2 G).
+  Qed.
+
+  (* every sample is taken in a non-strobe cycle in which the initiator has SCL released and, when clock
+     stretching is honoured, the synchronised SCL input is high *)
+  Theorem samples_scl_high : forall st, samples_now stretch st = true ->
+    scl_o st = true /\ (stretch = true -> scl_i st = true) /\ stb st = false.
+  Proof.
+    intros st H. unfold samples_now in H.
+    assert (D : sclh_done stretch st = true).
+    { destruct (fsm st) as [|g k]; [discriminate|]. destruct g, k; try discriminate; exact H. }
+    unfold sclh_done in D. destruct (stb st), (scl_o st); try discriminate. cbn in D.
+    repeat split. intros S. rewrite S in D. exact D.
+  Qed.
+
+  (* the sampled value reaches the registers only through such a step: r_shreg and ack_o change only when
+     samples_now holds *)
+  Theorem registers_change_only_by_sampling : forall st i,
+    samples_now stretch st = false ->
+    r_shreg (i2c_next q stretch st i) = r_shreg st /\ ack_o (i2c_next q stretch st i) = ack_o st.
+  Proof.
+    intros st i H. unfold samples_now in H. unfold i2c_next.
+    destruct (fsm st) as [|g k].
+    - repeat match goal with |- context [if ?b then _ else _] => destruct b end; split; reflexivity.
+    - destruct k; try (destruct (stb st); split; reflexivity).
+      destruct (stb st); [split; reflexivity|].
+      destruct g; try rewrite H; try (destruct (sclh_done stretch st)); split; reflexivity.
+  Qed.
+End GhostProofs.
